@@ -298,19 +298,31 @@ func (te *TemplateEngine) parseTemplate(template *Template) error {
 
 // processBlockOverrides 处理块重写
 func (te *TemplateEngine) processBlockOverrides(childTemplate, parentTemplate *Template) {
-	// 遍历子模板的块定义，检查是否重写父模板的块
-	for blockName, childBlock := range childTemplate.DefinedBlocks {
-		if parentBlock, exists := parentTemplate.DefinedBlocks[blockName]; exists {
-			// 标记父模板块被重写
-			parentBlock.IsOverridden = true
-			parentBlock.Content = childBlock.Content
-		}
-	}
+	// 块重写在渲染时沿继承链解析（见 inheritedContent）。这里不能修改父模板的块：
+	// 父模板被缓存并由它自己以及其他子模板共享，加载一个子模板不能改变它们的渲染结果，
+	// 而且渲染不持有锁，对父模板的写入会与并发渲染产生数据竞争。
+}
 
-	// 递归处理父模板的父模板
-	if parentTemplate.Parent != nil {
-		te.processBlockOverrides(childTemplate, parentTemplate.Parent)
+// inheritedContent 返回继承链最上层模板的内容，其中每个块占位符由继承链上
+// 最靠近当前模板的重写内容替换；没有被重写的块保持原样，由 renderBlocks 渲染为默认内容
+func (te *TemplateEngine) inheritedContent(template *Template) string {
+	chain := []*Template{}
+	for t := template; t != nil && len(chain) < 64; t = t.Parent {
+		chain = append(chain, t)
 	}
+	root := chain[len(chain)-1]
+	blockPattern := regexp.MustCompile(`(?s)\{\{#block\s+"([^"]+)"\}\}(.*?)\{\{/block\}\}`)
+	return blockPattern.ReplaceAllStringFunc(root.Content, func(match string) string {
+		matches := blockPattern.FindStringSubmatch(match)
+		if len(matches) >= 2 {
+			for _, t := range chain[:len(chain)-1] {
+				if block, exists := t.DefinedBlocks[matches[1]]; exists {
+					return block.DefaultContent
+				}
+			}
+		}
+		return match
+	})
 }
 
 // RenderToDocument 渲染模板到新文档
@@ -355,15 +367,8 @@ func (te *TemplateEngine) renderTemplate(template *Template, data *TemplateData)
 
 	// 处理继承：如果有父模板，使用父模板作为基础
 	if template.Parent != nil {
-		// 渲染父模板作为基础内容
-		parentContent, err := te.renderTemplate(template.Parent, data)
-		if err != nil {
-			return "", err
-		}
-		content = parentContent
-
-		// 应用子模板的块重写到父模板内容中
-		content = te.applyBlockOverrides(content, template)
+		// 以继承链最上层模板的内容为基础，应用继承链上的块重写
+		content = te.inheritedContent(template)
 	} else {
 		// 没有父模板，直接使用当前模板内容
 		content = template.Content
